@@ -469,6 +469,9 @@ func (s *Syncer) releaseInflight(key string) {
 
 func (s *Syncer) runPeer(p *Peer) {
 	defer func() {
+		// the transport must not outlive the peer loop: handlers still reading
+		// from it would otherwise hold Close until their RPC timeout
+		p.Close()
 		s.mu.Lock()
 		if s.peers[p.t.Addr] == p {
 			delete(s.peers, p.t.Addr)
